@@ -128,6 +128,8 @@ CloseE == /\ IsEvent("CloseE")
           /\ closeOpen' = FALSE /\ closeDone' = TRUE
           /\ UNCHANGED <<ops, idof, live, got, idres, stopped, pend, causes, sendBad, oncancel, onstop, cbrun, rdDone>>
 
+SendHealed == /\ IsEvent("SendHealed")   \* the channel works again; sendBad stays: it records that sends may have failed
+              /\ UNCHANGED <<ops, idof, live, got, idres, stopped, pend, causes, sendBad, oncancel, onstop, cbrun, closeOpen, closeDone, rdDone>>
 SendFailArmed == /\ IsEvent("SendFailArmed") /\ sendBad' = TRUE
                  /\ UNCHANGED <<ops, idof, live, got, idres, stopped, pend, causes, oncancel, onstop, cbrun, closeOpen, closeDone, rdDone>>
 
@@ -239,7 +241,7 @@ Terminal == /\ l <= Len(Trace) /\ Ev.ev \in {"Crash", "Deadlock", "Leak"}
             /\ UNCHANGED <<ops, idof, live, got, idres, stopped, pend, causes, sendBad, oncancel, onstop, cbrun, closeOpen, closeDone, rdDone>>
 
 Next == \/ Reset \/ OpB \/ CtxEnd \/ SendReq \/ SendCbReply \/ SendOther \/ Recv \/ RecvErr \/ Garbage \/ ChClose
-        \/ CloseB \/ CloseE \/ SendFailArmed \/ OpE \/ OnCancel \/ OnStop \/ CbStart \/ CbExit \/ Quiescent \/ Final
+        \/ CloseB \/ CloseE \/ SendFailArmed \/ SendHealed \/ OpE \/ OnCancel \/ OnStop \/ CbStart \/ CbExit \/ Quiescent \/ Final
         \/ Ignored \/ Terminal
 Spec == Init /\ [][Next]_vars
 
